@@ -14,7 +14,7 @@ RULE = ("directory trees materialised on disk with ground truth: 0-6 immediate s
         "levels) plus 0-3 files in the root, in Java/Go/Python/JavaScript/Shell, every file made of a known "
         "number of code lines, full-line comments and blank lines (incl. empty and comment-only files); "
         "DIR given as t, ../t, ./t, t/, proj/src, a/b or .; --include-ext subsets (incl. an unused extension); "
-        "--top-size 0/1/2/30; both reports produced by the `coca cloc` binary and read back from "
+        "--top-size 0/1/2/30, --sort default/name/lines/code/complexity; both reports produced by the `coca cloc` binary and read back from "
         "coca_reporter/cloc.csv, coca_reporter/sort_cloc.json and the stdout tables; tagged sub-streams for a "
         "language found only in an IDE/report directory (named in the header with an all-zero column: accepted), "
         "subdirectories named like *.git (fixed by 5353339: must pass), DIR whose characters "
@@ -76,7 +76,7 @@ def content_of(f):
 
 def harness_input(case):
     inp = case["input"]
-    return [inp, [["/".join(f[0]), content_of(f)] for f in inp[6]]]
+    return [inp, [["/".join(f[0]), content_of(f)] for f in inp[6]], case.get("sort", "")]
 
 # ------------------------------------------------------------------ trees
 def mk_file(comps, lang, code, comment, blank):
@@ -238,6 +238,8 @@ def cases(seed, tier):
         distinct_codes(files)
         out.append(case("top-%d" % i, "random", mk_input("top", rng.choice(["../zz", "../zz", "./q", "q/", "."] + DIRARGS),
                                                           pick_include(rng), rng.choice([0, 1, 2, 30]), dirs, files)))
+        # the order in which the languages are printed is the user's choice (--sort); what each table holds is not
+        out[-1]["sort"] = rng.choice(["", "", "name", "lines", "code", "complexity"])
     # top-file, DIR whose characters start a relative path
     for i in range(14 if q else 200):
         rng = vlib.rng_for(seed, ID, "cutset", i)
@@ -271,6 +273,13 @@ def canon(out):
         return ["top", secs, tabs]
     return out
 
+def agree(c):
+    a, b = canon(c["model_out"]), canon(c["impl_out"])
+    if c.get("sort") and isinstance(a, list) and isinstance(b, list) and a[:1] == ["top"] and b[:1] == ["top"]:
+        # --sort COLUMN: the languages come in the order asked for (the model prints scc's default order)
+        a = ["top", sorted(a[1]), sorted(a[2])]; b = ["top", sorted(b[1]), sorted(b[2])]
+    return a == b
+
 def clauses(spec_out):
     return list(spec_out)
 
@@ -302,7 +311,7 @@ def shrink(inp):
 def pretty(c):
     mode, dirarg, root, include, top, dirs, files = c["input"]
     lines = ["coca cloc %s %s%s" % (dirarg, "--by-directory" if mode == "bydir" else "--top-file --top-size %s" % top,
-                                    (" --include-ext " + ",".join(include)) if include else ""),
+                                    ((" --include-ext " + ",".join(include)) if include else "") + ((" --sort " + c["sort"]) if c.get("sort") else "")),
              "immediate subdirectories: %r" % (dirs,)]
     for f in files:
         lines.append("  %-28s %-10s code=%s comment=%s blank=%s" % ("/".join(f[0]), f[1], f[3], f[4], f[5]))
